@@ -19,15 +19,22 @@ KnownCodes == {Codes[i].code: i \in {j \in 1..Len(Codes): Codes[j].name \in Tool
 Known(c) == c \in KnownCodes
 NameSet(c) == {Codes[i].name: i \in {j \in 1..Len(Codes): Codes[j].code = c /\ Codes[j].name \in ToolNames}}
 
-RecsOfWrite(w) == IF "batch" \in DOMAIN w THEN RecordsOf(w.batch, CodeOf) ELSE << <<w.raw[1], w.raw[2], w.raw[3]>> >>
+IsFull(w) == "full" \in DOMAIN w
+\* (what is sent into a full descriptor never reaches the reader)
+RecsOfWrite(w) == IF IsFull(w) THEN <<>> ELSE IF "batch" \in DOMAIN w THEN RecordsOf(w.batch, CodeOf) ELSE << <<w.raw[1], w.raw[2], w.raw[3]>> >>
 AllRecs(r) == FlattenSeq([i \in 1..Len(r.writes) |-> RecsOfWrite(r.writes[i])])
 
 Verdict(r) ==
   LET L == r.layout
-      batchWrites == {i \in 1..Len(r.writes): "batch" \in DOMAIN r.writes[i]}
+      batchWrites == {i \in 1..Len(r.writes): "batch" \in DOMAIN r.writes[i] /\ ~IsFull(r.writes[i])}
+      fullWrites == {i \in 1..Len(r.writes): IsFull(r.writes[i])}
       kept == SelectSeq(AllRecs(r), LAMBDA x: x[1] = EV_KEY /\ x[3] \in {0, 1} /\ Known(x[2]))
   IN (IF r.status # "ok" THEN {"C18-send-failed"} ELSE {})
      \cup (IF \E i \in batchWrites: r.writes[i].bytes # Encode(r.writes[i].batch, CodeOf, L) THEN {"C18-bytes"} ELSE {})
+     \* "for every batch ... the bytes written are ...": a send that reports success has written the batch, whole; into a full descriptor it cannot have
+     \cup (IF \E i \in fullWrites: r.writes[i].sendres = "ok" /\ r.writes[i].bytes # Encode(r.writes[i].batch, CodeOf, L)
+           THEN {"C18-send-reported-success-for-bytes-it-did-not-write"} ELSE {})
+     \cup (IF \E i \in fullWrites: r.writes[i].bytes # <<>> /\ r.writes[i].bytes # Encode(r.writes[i].batch, CodeOf, L) THEN {"C18-partial-batch-written"} ELSE {})
      \cup (IF Len(r.decoded) # Len(kept) THEN {"C18-decoded-count"}
            ELSE IF \E i \in 1..Len(kept): r.decoded[i].t # (IF kept[i][3] = 1 THEN "P" ELSE "R") \/ r.decoded[i].k \notin NameSet(kept[i][2])
                 THEN {"C18-decoded-events"} ELSE {})
